@@ -26,3 +26,24 @@ rewrite !bdiag_mul; congr bdiag.
 Qed.
 End Demux.
 Print Assumptions demux.
+
+(* one level of the quantum Shannon decomposition with optimisation A.1, over any field:
+   U = (u0 (+) u1) CS (v0 (+) v1)  (cosine-sine),  CS = (1 (+) Z) Y  where Y is what the CZ-built multiplexed RY without its
+   last CZ implements (property C13) and 1 (+) Z is that CZ; negating the last columns of u1 (u1 Z) absorbs it; each block pair
+   is demultiplexed.  The product of the six emitted blocks is U. *)
+Section QsdStep.
+Variable (F : fieldType) (m : nat).
+Implicit Types (A B : 'M[F]_m).
+Lemma a1_absorb (u0 u1 Z : 'M[F]_m) (Y : 'M[F]_(m + m)) :
+  bdiag u0 (u1 *m Z) *m Y = bdiag u0 u1 *m (bdiag 1%:M Z *m Y).
+Proof. by rewrite mulmxA bdiag_mul mulmx1. Qed.
+
+Theorem qsd_step (U CS Y : 'M[F]_(m + m)) (u0 u1 v0 v1 Z : 'M[F]_m)
+  (Vl Dl Dlinv Wl Vr Dr Drinv Wr : 'M[F]_m) :
+  U = bdiag u0 u1 *m CS *m bdiag v0 v1 ->
+  CS = bdiag 1%:M Z *m Y ->
+  bdiag u0 (u1 *m Z) = bdiag Vr Vr *m bdiag Dr Drinv *m bdiag Wr Wr ->
+  bdiag v0 v1 = bdiag Vl Vl *m bdiag Dl Dlinv *m bdiag Wl Wl ->
+  (bdiag Vr Vr *m bdiag Dr Drinv *m bdiag Wr Wr) *m Y *m (bdiag Vl Vl *m bdiag Dl Dlinv *m bdiag Wl Wl) = U.
+Proof. move=> -> -> <- <-. by rewrite a1_absorb !mulmxA. Qed.
+End QsdStep.
